@@ -6,8 +6,10 @@ mod ev;
 mod par;
 mod c02;
 mod c03;
+mod c06;
 mod c07;
 mod chainx;
+mod corrupt;
 mod ledger;
 mod elem;
 mod fp;
@@ -42,7 +44,7 @@ pub trait Engine {
 }
 
 fn engines() -> Vec<Box<dyn Engine>> {
-	vec![Box::new(c02::C02), Box::new(c03::C03), Box::new(c07::C07)]
+	vec![Box::new(c02::C02), Box::new(c03::C03), Box::new(c06::C06), Box::new(c07::C07)]
 }
 
 fn main() {
